@@ -229,11 +229,28 @@ def cpp_side(model, cm, proto, rng, quick, stats, viols, ctx):
         flat = sw.flat_values(proto, vals)
         parts = sw.gen_partitions(proto, vals, r)
         data = codec.encode_stream(proto, ns, schema, vals, parts)
+        extra_caps = set()
+        if codec.block_ends and proto.steps[0][0] == sw.PAD_STEP and r.chance(0.4):
+            # alignment of another kind: the padding is sized so that a *block* of a stream ends exactly on a multiple of
+            # the staging-buffer size (the reader's buffer runs empty precisely where the next block header is due), and
+            # batch capacities are added that become full exactly there
+            end, step_i, upto = r.choice(codec.block_ends)
+            for _ in range(4):
+                shift = (-end) % sw.BUF
+                if shift == 0:
+                    break
+                vals[0] = vals[0] + "p" * shift
+                data = codec.encode_stream(proto, ns, schema, vals, parts)
+                end = [e for e, si, u in codec.block_ends if si == step_i and u == upto][0]
+            if end % sw.BUF == 0:
+                stats["block_end_on_buffer_boundary"] = stats.get("block_end_on_buffer_boundary", 0) + 1
+                extra_caps = {c for c in (upto, 2, 3, 4, 5, 6) if c >= 2 and upto % c == 0}
+            flat = sw.flat_values(proto, vals)
         inputs.append(data)
         ii = len(inputs) - 1
         nmax = max([len(vals[k]) for k in stream_idx] or [1])
-        caps = sorted({1, 2, 3, 7, 64, max(1, nmax - 1), max(1, nmax), nmax + 1})
-        for c in (caps if not quick else r.sample(caps, min(4, len(caps)))):
+        caps = sorted({1, 2, 3, 7, 64, max(1, nmax - 1), max(1, nmax), nmax + 1} | extra_caps)
+        for c in (caps if not quick else sorted(set(r.sample(caps, min(4, len(caps)))) | extra_caps)):
             runs.append({"proto": proto.name, "op": "relay", "in_fmt": "binary", "out_fmt": "binary", "input": ii,
                          "batch": [c if r.chance(0.7) else r.choice(caps) for _ in range(nb)], "chunk_mode": r.choice([0, 0, 3]), "chunk_seed": r.randint(1, 1 << 30)})
             meta.append(("relay", vals, parts, flat, runs[-1]["batch"]))
@@ -451,7 +468,7 @@ def main():
                stubbed="C++: nd-array header (cpp.overrideArrayHeader) and date/date.h are verification stubs; harness main emitted from the generated protocols.h",
                assumptions=["reference codec per docs/reference, with int8/uint8 as one raw byte"],
                replay_fn=replay_doc, quick_budget=150,
-               fault_keys=("value_straddles_refill", "empty_write_call", "generator_path", "list_path", "tuple_path", "cpp_relay", "cpp_script", "cpp_ndjson_relay", "cpp_ndjson_script", "py_write_histories"))
+               fault_keys=("value_straddles_refill", "empty_write_call", "generator_path", "list_path", "tuple_path", "block_end_on_buffer_boundary", "cpp_relay", "cpp_script", "cpp_ndjson_relay", "cpp_ndjson_script", "py_write_histories"))
 
 
 if __name__ == "__main__":
